@@ -140,6 +140,8 @@ pub fn qsieve(
         None,
     );
     for large_blk_idx in 1.. {
+        #[cfg(yamaquasi_verif)]
+        simsync::probe::unit_begin("qs_largeblock");
         // The unit of work is an entire large block (blocks * BLOCK_SIZE)
         // The size of a large block should be similar to the SIQS interval size.
         // Forward sieve
